@@ -212,8 +212,8 @@ def still_collides(exe_r, exe_m, a, b, others, mech):
 
 
 def run(ctx):
-    n = 6000 if ctx.tier == "quick" else 400000
-    nbad = 1500 if ctx.tier == "quick" else 60000
+    n = 6000 if ctx.tier == "quick" else 2000000
+    nbad = 1500 if ctx.tier == "quick" else 200000
     ctx.assumptions += [
         "model: ASCII only (WIT identifiers and semver strings are ASCII by grammar); heck 0.5 transform transcribed for snake case; u64/semver Display transcribed",
         "model validity = wit-parser validate_id + semver grammar; WIT keywords as names and the WIT lexer's treatment of a dangling '-'/'+' are outside the model (the generator does not emit keywords; dangling separators are stored under another spelling by the parser and count as rejected on both sides)",
